@@ -162,6 +162,13 @@ def const_class(payload):
 
 
 def pat(s, depth=2):
+    try:
+        return _pat(s, depth)
+    except Exception:  # noqa - a malformed signature must not take the harness down
+        return "<?>"
+
+
+def _pat(s, depth=2):
     if s is None:
         return "_"
     tag, payload, ls, rs = s
@@ -172,8 +179,8 @@ def pat(s, depth=2):
     if depth == 0:
         return f"<{tag}>"
     if tag in SG.UNARY:
-        return f"{tag}({pat(ls if ls is not None else rs, depth - 1)})"
-    return f"({pat(ls, depth - 1)}{tag}{pat(rs, depth - 1)})"
+        return f"{tag}({_pat(ls if ls is not None else rs, depth - 1)})"
+    return f"({_pat(ls, depth - 1)}{tag}{_pat(rs, depth - 1)})"
 
 
 def neighbourhood(node, depth=2):
